@@ -77,11 +77,20 @@ def run(tier, seed):
   rep.rule = ('point sets on small integer grids with duplicates, single-coordinate ties and +-inf (n<=9, d<=4) run through '
               'Naive/Fast/Jax Pareto routines, nsga2._pareto_rank and (via the service driver) ListOptimalTrials, and through '
               'the model; non-trivial = at least one dominated and one non-dominated point')
-  rep.trusted = ['Coq 8.16.1 kernel + vm_compute', 'numpy argsort modelled as stable insertion sort (true for n<16)',
+  rep.trusted = ['Coq 8.16.1 kernel + vm_compute', 'harness/translate/dominance.py (Python-ast translator of the dominance tests of ListOptimalTrials, nsga2._pareto_rank and xla_pareto, fail-closed; numpy / jax reductions and vmap axes are assumed)', 'numpy argsort modelled as stable insertion sort (true for n<16)',
                  'np.linspace cut points are taken from numpy and only required to descend from len(ys) to 0',
                  'harness/props/c11.py generators and printers', 'proto shim / equinox stand-in']
+  tbroke = None
+  try:
+    from harness.translate import dominance
+    C.write_gen('Gen/Dominance.v', dominance.translate(C.REPO))
+  except Exception as e:  # pylint: disable=broad-except
+    tbroke = 'translator harness/translate/dominance.py refused the Pareto sources: %r' % (e,)
+  from harness import svcrun as _svcrun
+  hb_ = _svcrun.regenerate_handler_sources()
+  tbroke = ((tbroke or '') + ' ' + (hb_ or '')).strip() or None
   C.standard_proof_step(rep, 'C11')
-  broke = rep.proof_broken
+  broke = ((tbroke or '') + ' ' + (rep.proof_broken or '')).strip() or None
   concrete = False
   known = {f['id']: f for f in C.load_known() if f['property'] == 'C11'}
   r = C.rng(seed, 'c11')
